@@ -332,3 +332,26 @@ Proof.
         replace (p_right (o_pad o)) with 0 in TW by lia. exact TW.
       * exact TW.
 Qed.
+
+(* the hypotheses of stripe_taps_equal_lemma are satisfiable by a non-trivial instance: 3x3 stride-2 SAME convolution
+   with dilation 2 on a 11x9 input writing a 6x5 window at offset (2,1) of a larger OFM, stripe = rows [4,6) of it *)
+Example stripe_taps_equal_example :
+  exists o b pad skirt,
+    calc_padding_and_skirt PAD_SAME 5 5 2 2 11 9 {| p_top := 0; p_left := 0; p_bottom := 0; p_right := 0 |} = Some (pad, skirt) /\
+    o = {| o_ifm := {| cn := 1; ch := 11; cw := 9; cc := 8 |}; o_oshape := {| cn := 1; ch := 6; cw := 5; cc := 16 |};
+           o_woff := {| cn := 0; ch := 2; cw := 1; cc := 0 |}; o_kh := 3; o_kw := 3; o_dy := 2; o_dx := 2; o_sy := 2; o_sx := 2;
+           o_pad := pad; o_skirt := skirt; o_bt := BT_ConvolutionMxN |} /\
+    b = ({| cn := 0; ch := 4; cw := 1; cc := 0 |}, {| cn := 1; ch := 6; cw := 6; cc := 16 |}) /\
+    geom_ok (conv_geom_h o) /\ geom_sane (conv_geom_h o) /\ geom_ok (conv_geom_w o) /\ geom_sane (conv_geom_w o) /\
+    (o_bt o =? BT_VectorProduct) = false /\ stripe_box_ok o b /\
+    transform (conv_tf o b) = Some (({| cn := 0; ch := 2; cw := 0; cc := 0 |}, {| cn := 1; ch := 10; cw := 9; cc := 8 |}), 0, 0).
+Proof.
+  eexists _, _, _, _. split; [vm_compute; reflexivity|]. split; [reflexivity|]. split; [reflexivity|].
+  assert (Gh := same_geom_ok 11 6 3 2 2 _ _ 5 2 9 {| p_top := 0; p_left := 0; p_bottom := 0; p_right := 0 |}
+                  ltac:(lia) ltac:(lia) ltac:(lia) ltac:(lia) ltac:(reflexivity) ltac:(vm_compute; reflexivity)).
+  assert (Gw := same_geom_ok_w 9 5 3 2 2 _ _ 5 2 11 {| p_top := 0; p_left := 0; p_bottom := 0; p_right := 0 |}
+                  ltac:(lia) ltac:(lia) ltac:(lia) ltac:(lia) ltac:(reflexivity) ltac:(vm_compute; reflexivity)).
+  destruct Gh as [Gh1 Gh2]. destruct Gw as [Gw1 Gw2].
+  split; [exact Gh1|]. split; [exact Gh2|]. split; [exact Gw1|]. split; [exact Gw2|].
+  split; [reflexivity|]. split; [unfold stripe_box_ok; cbn; lia|]. vm_compute. reflexivity.
+Qed.
